@@ -64,7 +64,7 @@ def main():
     for r in rows:
         kinds[r["kind"]] = kinds.get(r["kind"], 0) + 1
     cov = {"states": mc.distinct, "transitions": mc.generated, "traces_validated_against_impl": len(cases),
-           "samples": [{"row": json.loads(json.dumps(rows[1]))}], "rows_judged": kinds, "documents": len(cases),
+           "samples": [{"row": json.loads(json.dumps(rows[min(1, len(rows) - 1)]))}], "rows_judged": kinds, "documents": len(cases),
            "feature_vectors_from_tlc": len(feats), "bad_rows": len(bad)}
     return v.finish("model_checking", cov, [
         "lexical matters (INI syntax, number spelling, quoting) are the independent writer's: the specification covers the MEANING of well-formed documents",
